@@ -89,6 +89,23 @@ Definition asEvent (s : sx) : option event :=
   end.
 
 Definition asRow (s : sx) : option row := asListOf asOQ s.
+(* datum: (active (x y) (z1 ..)) ; target: (active (x y) row) *)
+Definition asDatum (s : sx) : option datum :=
+  match s with
+  | L [a; xy; z] => match asB a, asListOf asQ xy, asListOf asOQ z with
+                    | Some a', Some xy', Some z' => Some (mkDatum a' xy' z')
+                    | _, _, _ => None
+                    end
+  | _ => None
+  end.
+Definition asTarget (s : sx) : option (bool * list Q * row) :=
+  match s with
+  | L [a; xy; r] => match asB a, asListOf asQ xy, asRow r with
+                    | Some a', Some xy', Some r' => Some (a', xy', r')
+                    | _, _, _ => None
+                    end
+  | _ => None
+  end.
 
 Definition run (c : sx) : sx :=
   match c with
@@ -132,6 +149,15 @@ Definition run (c : sx) : sx :=
       match asRow z, asRow r with
       | Some z', Some r' => L [I 0; ofList ofOQ (difference_row nbsimu nvar icase z' r')]
       | _, _ => sx_error 1
+      end
+  | L [I 9; I nbsimu; I nvar; I icase; eps2; data; tgs] =>
+      match asQ eps2, asListOf asDatum data, asListOf asTarget tgs with
+      | Some e, Some d, Some t =>
+          L [I 0; ofList (fun tg => let '(a, xy, r) := tg in
+                                    ofList ofOQ (update_point_target nbsimu nvar icase e d a xy r)) t;
+             ofList (fun tg => let '(a, xy, r) := tg in
+                               match find_close e xy d 0 with Some k => I (Z.of_nat k) | None => I (-1) end) t]
+      | _, _, _ => sx_error 1
       end
   | L [I 8; L l] =>
       match l with
